@@ -69,6 +69,8 @@ def run(ctx):
     rule_any(ctx, F)
     rule_wipe(ctx, F)
     rule_mark(ctx, F)
+    import c09
+    c09.rule_shared(ctx, F)       # node existence must be version-scoped, or an abandoned writer changes answers (shared with C09)
     import c10
     c10.rule_keepttl(ctx, F)      # history independence: a deletion does not touch the other records' TTL
     # the answer depends on the current records only if the versioned containers mask, restore and roll back correctly
